@@ -489,10 +489,68 @@ class Gen:
         return prog
 
 
+def operand_universe(a, b):
+    """operands over `qreg q[a]; qreg r[b];`: first/last element and the whole register of each"""
+    ops = [["q", 0]] + ([["q", a - 1]] if a > 1 else []) + [["q", None]]
+    ops += [["r", 0]] + ([["r", b - 1]] if b > 1 else []) + [["r", None]]
+    return ops
+
+
+def shape_programs(sizes, with_three=True, conditioned=False):
+    """EVERY combination of operand shapes {q[i], q, r[j], r} for two- and three-operand gates (built-in, qelib1,
+    user-defined) on registers of the given sizes: indexed + whole register that contains it (malformed: a repeated
+    qubit after broadcast), indexed + another register, register + register of equal / different size, ..."""
+    g2 = {"t": "gate", "n": "gtwo", "ps": [], "qs": ["a", "b"], "body": [{"o": "call", "n": "cx", "ps": [], "qs": ["a", "b"]}]}
+    g3 = {"t": "gate", "n": "gthree", "ps": ["p"], "qs": ["a", "b", "c"],
+          "body": [{"o": "call", "n": "ccx", "ps": [], "qs": ["a", "b", "c"]},
+                   {"o": "call", "n": "rz", "ps": [["id", "p"]], "qs": ["c"]}]}
+    two = [("cx", []), ("CX", None), ("cz", []), ("cu1", [["/", ["pi"], ["lit", "2"]]]), ("gtwo", [])]
+    three = [("ccx", []), ("gthree", [["pi"]])]
+    for a, b in sizes:
+        hdr = [{"t": "version"}, {"t": "incl", "f": "qelib1.inc"}, {"t": "qreg", "n": "q", "k": a},
+               {"t": "qreg", "n": "r", "k": b}, {"t": "creg", "n": "c", "k": 1}, g2, g3]
+        U = operand_universe(a, b)
+        for k, gates in ((2, two), (3, three if with_three else [])):
+            for name, ps in gates:
+                for args in itertools.product(U, repeat=k):
+                    args = [list(x) for x in args]
+                    if ps is None:
+                        op = {"o": "CX", "a": args[0], "b": args[1]}
+                    else:
+                        op = {"o": "call", "n": name, "ps": ps, "qs": args}
+                    st = {"t": "if", "c": "c", "k": 1, "op": op} if conditioned else {"t": "qop", "op": op}
+                    yield hdr + [st]
+
+
+def measure_shape_programs():
+    """every operand shape of `measure` (element / last element / out of range / whole register, on both sides)
+    for registers of 1-3 (qu)bits, plain and — a recorded finding — behind an `if`"""
+    for a in (1, 2, 3):
+        for b in (1, 2, 3):
+            hdr = [{"t": "version"}, {"t": "incl", "f": "qelib1.inc"}, {"t": "qreg", "n": "q", "k": a},
+                   {"t": "creg", "n": "c", "k": b}]
+            qs = [["q", 0], ["q", a - 1], ["q", a], ["q", None], ["nosuch", None], ["c", 0]]
+            cs = [["c", 0], ["c", b - 1], ["c", b], ["c", None], ["nosuch", 0], ["q", None]]
+            for x in qs:
+                for y in cs:
+                    yield hdr + [{"t": "qop", "op": {"o": "measure", "q": list(x), "c": list(y)}}]
+
+
+def barrier_shape_programs():
+    """barrier operands: any mix of elements and registers (repeats and different sizes are fine for the standard)"""
+    for a, b in ((1, 2), (2, 2), (3, 1)):
+        hdr = [{"t": "version"}, {"t": "incl", "f": "qelib1.inc"}, {"t": "qreg", "n": "q", "k": a},
+               {"t": "qreg", "n": "r", "k": b}]
+        U = operand_universe(a, b)
+        for k in (1, 2, 3):
+            for args in itertools.product(U, repeat=k):
+                yield hdr + [{"t": "barrier", "qs": [list(x) for x in args]}, {"t": "qop", "op": {"o": "call", "n": "x", "ps": [], "qs": [["q", 0]]}}]
+
+
 MUTATIONS = ["undeclared_reg", "undeclared_gate", "index_range", "repeated_qubit", "arity_param", "arity_qubit",
              "reset", "opaque", "power", "function", "broadcast_mismatch", "free_id", "if_undeclared_creg",
              "measure_range", "measure_sizes", "body_undeclared_gate", "no_header", "body_arity", "zero_div",
-             "if_value_range"]
+             "if_value_range", "index_in_broadcast", "barrier_undeclared"]
 
 
 def mutate(rng, prog, kind):
@@ -626,6 +684,24 @@ def mutate(rng, prog, kind):
             return None
     elif kind == "if_undeclared_creg":
         prog[i] = {"t": "if", "c": "nosuchcreg", "k": 0, "op": op}
+    elif kind == "index_in_broadcast":   # `cx q[1], q;`: an element together with the whole register containing it
+        if len(args_of(op)) < 2:
+            return None
+        j = rng.randrange(len(args_of(op)))
+        rname = args_of(op)[j][0]
+        others = [x for x in range(len(args_of(op))) if x != j]
+        jj = rng.choice(others)
+        size = dict(qregs)[rname]
+        set_arg(op, j, [rname, None])
+        set_arg(op, jj, [rname, rng.randrange(size)])
+        # the remaining operands must not introduce another error class: make them elements of other registers
+        for x in others:
+            if x != jj:
+                a = args_of(op)[x]
+                if a[1] is None and dict(qregs)[a[0]] != size:
+                    return None
+    elif kind == "barrier_undeclared":
+        prog.insert(i, {"t": "barrier", "qs": [["nosuchreg", None]]})
     elif kind == "if_value_range":      # a value that does not fit the register (never true for the standard)
         if not cregs:
             return None
@@ -892,6 +968,23 @@ class C04(PropertyCheck):
                     prog.append({"t": "qop", "op": op})
                 progs.append(prog)
         self._run(ctx, res, progs, ["stream=systematic"])
+        # exhaustive over operand shapes: {q[i], q, r[j], r}^k for two- and three-operand gates, registers of 1-3 qubits
+        all_sizes = [(a, b) for a in (1, 2, 3) for b in (1, 2, 3)]
+        shapes = list(shape_programs(all_sizes, with_three=False))
+        shapes += list(shape_programs(all_sizes if ctx.thorough else [(1, 1), (2, 2), (2, 3), (3, 1)], with_three=True))
+        seen_txt, uniq = set(), []
+        for pr in shapes + list(shape_programs([(1, 2), (2, 2), (3, 2)], with_three=ctx.thorough, conditioned=True)):
+            t = "\n".join(render(pr))
+            if t not in seen_txt:
+                seen_txt.add(t)
+                uniq.append(pr)
+        self._run(ctx, res, uniq, ["stream=operand-shapes"])
+        self._run(ctx, res, list(measure_shape_programs()), ["stream=measure-shapes"])
+        self._run(ctx, res, list(barrier_shape_programs()), ["stream=barrier-shapes"])
+        res.notes.append("exhaustive: every operand-shape tuple over {q[0], q[last], q, r[0], r[last], r} for 2-operand gates "
+                         "(cx, CX, cz, cu1, user gate) on registers of sizes 1-3 x 1-3 and for 3-operand gates (ccx, user gate), "
+                         "plain and behind `if`; every measure operand shape (element / out of range / register / undeclared / "
+                         "wrong kind on both sides); barrier operand tuples")
         res.exhaustive = True
         res.notes.append("systematic: every qelib1 gate, U and CX x {indexed, whole-register broadcast, if on a 1-bit "
                          "register, if on a 2-bit register}; then generated programs and their malformed variants")
@@ -931,11 +1024,19 @@ class C04(PropertyCheck):
     def _stream(self, ctx):
         rng = ctx.rng
         g = Gen(rng)
+        # operand shapes first: element + containing register must be rejected, element + other register imported
+        shapes = list(shape_programs([(2, 2), (1, 3), (3, 1)], with_three=False)) + \
+            list(shape_programs([(2, 1)], with_three=True))
+        rng.shuffle(shapes)
+        for p in shapes[: (len(shapes) if ctx.thorough else 60)]:
+            yield p
+        for p in list(shape_programs([(1, 2)], with_three=False, conditioned=True))[:: (1 if ctx.thorough else 9)]:
+            yield p
         while True:
             p = g.program()
             yield p
             if rng.random() < 0.5:
-                m = mutate(rng, p, rng.choice([k for k in MUTATIONS if k != "if_value_range"]))
+                m = mutate(rng, p, rng.choice([k for k in MUTATIONS if k not in ("if_value_range", "barrier_undeclared")]))
                 if m is not None:
                     yield m
 
